@@ -536,7 +536,7 @@ func partial(b []byte) [2]any {
 func (c *Conn) Established() bool {
 	c.mu.Lock()
 	defer c.mu.Unlock()
-	return c.consumed > 0
+	return c.consumed > 0 && !c.dead && !c.eof // (a reset connection carries nothing any more)
 }
 
 // dropUnconsumed ends the broker's side of an old connection: what the client wrote there is
